@@ -39,7 +39,13 @@ RULES = {
    "composite literals accept duplicate constant keys ([]int{0: 1, 0: 2}, map[string]int{\"s\": 1, \"s\": 2}, S{a: 1, a: 2}) and negative indices ([]int{-1: 1})", "util_gengo.go SliceLitEx / ArrayLitEx / MapLitEx / StructLit"),
   ("KF-C01-15", "keyed-array-literal-skips-the-element-range-check", r'^accepted-although-elem/array-literal$',
    "[2]int8{1: 300, 0: 1}: in a keyed array literal an element constant that is not representable in the element type is accepted", "util_gengo.go ArrayLitEx keyVal branch"),
-  ("KF-C01-6", "comparison-accepts-mismatched-or-unrepresentable-operands", r'^accepted-although-(mismatched|notrepresentable)/(equality|ordering) \[.*var',
+  ("KF-C01-16", "duplicate-cases-not-detected", r'^accepted-although-dup/(switch|type-switch)/',
+   "switch x { case 1, 1: } and switch v.(type) { case int, int: } are accepted (Go: duplicate case)", "stmt.go caseStmt.Then / typeCaseStmt.Then: no duplicate detection"),
+  ("KF-C01-17", "send-statement-operands-not-checked", r'^accepted-although-(cannotsend|value)/send/',
+   "ch <- v is emitted without checking that ch is a channel that can be sent to (an int, a slice, a receive-only channel are accepted) or that v is assignable to its element type", "codebuild.go Send"),
+  ("KF-C01-18", "range-over-send-only-channel-accepted", r'^accepted-although-notrangeable/range/sendchan/',
+   "for range ch with ch of type chan<- int is accepted (Go: cannot range over a send-only channel)", "stmt.go forRangeStmt.getKeyValTypes: channel direction is not looked at"),
+  ("KF-C01-6", "comparison-accepts-mismatched-or-unrepresentable-operands", r'^accepted-although-(mismatched|notrepresentable)/(equality|ordering) \[.*var|^accepted-although-case/switch/tag:',
    "== / != / < with a variable accept mismatched defined types (MyInt == int) and untyped constants not representable in the variable's type (v_int8 == 300)", "template.go ComparableTo / untypedComparable (see C05 findings 4-6)"),
  ],
  "C02": [
